@@ -155,6 +155,7 @@ def check_state(system, hist, stats):
     return viols
 
 
+@common.job
 def _job(job):
     arg, hists = job
     system = engine_hist._system(c09.make_system, arg)
